@@ -33,8 +33,8 @@ def Cons (c : Hls.Cfg) (g : Gen) (vs : List Frame) (es : Bytes) : Prop :=
   ∧ audioEs c (written g) ++ cacheEs g = es
   ∧ (∀ a, g.afCache = some a → isAudio c a.head = true)
 
-theorem cons_init (c : Hls.Cfg) : Cons c init [] [] := by
-  refine ⟨rfl, ⟨_, rfl⟩, ?_, ?_, ?_⟩ <;> simp [init, segmentOpen, written, videoOf, audioEs, cacheEs]
+theorem cons_init (c : Hls.Cfg) (b : Bool) : Cons c (initWith b) [] [] := by
+  refine ⟨rfl, ⟨_, rfl⟩, ?_, ?_, ?_⟩ <;> simp [initWith, segmentOpen, written, videoOf, audioEs, cacheEs]
 
 theorem written_flush (g g' : Gen) (f : Frame) (h : flushFrame g f = some g') :
     written g' = written g ++ [f] ∧ g'.dropped = g.dropped ∧ g'.afCache = g.afCache
@@ -46,7 +46,8 @@ theorem written_flush (g g' : Gen) (f : Frame) (h : flushFrame g f = some g') :
     simp only [hc] at h
     injection h with h; subst h
     refine ⟨?_, rfl, rfl, ⟨_, rfl⟩⟩
-    simp [written, hc, updateDuration]
+    simp only [written, hc, updateDuration]
+    split <;> simp
 
 theorem flushFrame_some (g : Gen) (f : Frame) (h : ∃ s, g.current = some s) : ∃ g', flushFrame g f = some g' := by
   obtain ⟨s, hs⟩ := h
